@@ -63,6 +63,9 @@ func (s *_watchSession) done() <-chan struct{} {
 }
 
 func (s *_watchSession) stop() {
+	// cancel first: run() may still be blocked in client.Watch(), where it
+	// cannot see the shutdown request.
+	s.cancel()
 	s.lc.ShutdownAsync(nil)
 }
 
